@@ -159,6 +159,67 @@ class RefServer:
             pass
 
 
+class PristineServer(RefServer):
+    """The process image *before the run did anything* (right after the zygote's warm-up / the worker's import).
+
+    Asked to restore a document and predict with it, it answers what a process without this run's history would
+    answer.  A restored object whose prediction differs from that depends on what happened in its process."""
+
+    def __init__(self, worker):
+        super().__init__(worker, None, None)
+
+    @staticmethod
+    def _serve(worker, obj, fam, rfd, wfd):
+        import os
+
+        rf = os.fdopen(rfd, "r")
+        for line in rf:
+            req = json.loads(line)
+            gpid = os.fork()
+            if gpid == 0:
+                try:
+                    try:
+                        cls = getattr(worker.em, P.FAMILIES[req["fam"]][0])
+                        with worker._quiet():
+                            model = cls.from_json(req["doc"])
+                        fresh = worker._fresh_data(req["recipe"])
+                        with worker._quiet():
+                            res = worker._do_predict(model, req["fam"], fresh, req["ignore"], req["agg"])
+                        ans = {"cls": "returned", "parts": D.frame_parts(res)}
+                    except Exception as e:  # noqa: BLE001
+                        ans = {"cls": _cls(e), "parts": None}
+                    os.write(wfd, (json.dumps(ans) + "\n").encode())
+                finally:
+                    os._exit(0)
+            try:
+                os.waitpid(gpid, 0)
+            except ChildProcessError:
+                pass
+
+    def restore_predict(self, fam, doc, recipe, ignore, agg, timeout=600.0):
+        import os
+        import select
+
+        if self.dead:
+            return ("reference-unavailable", None)
+        try:
+            os.write(self.w, (json.dumps({"fam": fam, "doc": doc, "recipe": recipe, "ignore": ignore,
+                                          "agg": agg}) + "\n").encode())
+            r, _, _ = select.select([self.r], [], [], timeout)
+            if not r:
+                self.close()
+                return ("reference-unavailable", None)
+            line = self.rfile.readline()
+            if not line:
+                self.close()
+                return ("reference-unavailable", None)
+            ans = json.loads(line)
+            return (ans["cls"], ans["parts"])
+        except OSError:
+            self.close()
+            return ("reference-unavailable", None)
+
+
 class ModelSlot:
     def __init__(self, obj, fam, profile):
         self.obj = obj
@@ -170,6 +231,8 @@ class ModelSlot:
         self.ref = None           # RefServer forked when the object entered service (the reference twin)
         self.gen = 0              # restore generation
         self.origin_doc = None    # document it was restored from
+        self.origin_text = None   # its text (restored objects)
+        self.pristine_cache = {}
         self.lineage = None
         self.n_predicts = 0
         self.prev_span = "none"
@@ -213,6 +276,7 @@ class Worker:
         self.restarts = 0
         self.facts = facts or {}
         self.probes = {}
+        self.pristine = PristineServer(self)   # forked before the run has done anything
 
     # ------------------------------------------------------------------ helpers
 
@@ -234,6 +298,8 @@ class Worker:
         for srv in self.store_twins.values():
             srv.close()
         self.store_twins.clear()
+        if self.pristine is not None:
+            self.pristine.close()
 
     def probe(self, name, n=1):
         self.probes[name] = self.probes.get(name, 0) + n
@@ -831,6 +897,17 @@ class Worker:
                 out["ref_class"] = rcls
                 if rcls == "returned" and parts is not None:
                     out["ref_diff"] = sorted({k for k in D.diff_parts(parts, rparts)})
+            if slot.origin_text is not None and self.pristine is not None and m_before == D.text(slot.origin_text):
+                # the object still serialises to its document: a pristine process restoring that document is a
+                # reference that shares nothing with this process
+                if key not in slot.pristine_cache:
+                    slot.pristine_cache[key] = self.pristine.restore_predict(slot.fam, slot.origin_text, ds.recipe,
+                                                                              ignore, agg)
+                pcls, pparts = slot.pristine_cache[key]
+                if pcls != "reference-unavailable":
+                    out["pristine_class"] = pcls
+                    if pcls == "returned" and parts is not None:
+                        out["pristine_diff"] = sorted({k for k in D.diff_parts(parts, pparts)})
             if slot.origin_doc is not None and slot.origin_doc in self.store_twins:
                 scls, sparts = self.store_twins[slot.origin_doc].predict(ds.recipe, ignore, agg)
                 if scls != "reference-unavailable":
@@ -846,6 +923,48 @@ class Worker:
         slot.n_predicts += 1
         slot.prev_span = ds.recipe.get("span", "baseline")
         return out
+
+    def op_ABORT_SWEEP(self, a, store):
+        """Fault enumeration for one predict: deliver an exception at EVERY library-frame entry of the call (on deep
+        copies of the model, one per crash point) and compare the copy's serialised form before and after."""
+        slot = self.models.get(a["m"])
+        ds = self.data.get(a["d"])
+        if slot is None or ds is None or not slot.fitted or slot.fam == "caltrack":
+            return {"class": "skipped"}
+        ignore = True
+        exc = a.get("exc", "MemoryError")
+        base_dg, base_txt, mode = self.model_state(slot.obj)
+        d_before = self.data_state(ds.obj)
+        try:
+            m2 = copy.deepcopy(slot.obj)
+            n, dry = seams.count_entries(lambda: self._call(lambda: self._do_predict(m2, slot.fam, ds.obj, ignore, None)))
+        except Exception as e:  # noqa: BLE001
+            return {"class": "skipped", "why": _cls(e)}
+        cap = int(a.get("cap", 160))
+        ks = list(range(1, n + 1)) if n <= cap else sorted({1 + (i * n) // cap for i in range(cap)})
+        bad = []
+        fired = swallowed = 0
+        for k in ks:
+            mk = copy.deepcopy(slot.obj)
+            mon, _res, err = seams.run_with_abort(
+                lambda: self._call(lambda: self._do_predict(mk, slot.fam, ds.obj, ignore, None)), k, exc)
+            if not mon.fired:
+                continue
+            fired += 1
+            if err is None:
+                swallowed += 1
+            dg, txt, _ = self.model_state(mk)
+            if dg != base_dg:
+                paths = D.top_diff(json.loads(base_txt), json.loads(txt)) if (base_txt and txt) else ["state"]
+                bad.append({"k": k, "where": mon.where, "paths": paths})
+        d_after = self.data_state(ds.obj)
+        self.probe("abort_sweep_points", fired)
+        if swallowed:
+            self.probe("abort_swallowed_by_library", swallowed)
+        sig, nt = self._presig("ABORT_SWEEP", slot)
+        return {"class": "done", "fam": slot.fam, "profile": slot.profile, "entries": n, "points": len(ks), "fired": fired,
+                "dry": dry, "altered": bad[:6], "n_altered": len(bad), "data_changed": D.diff_parts(d_before, d_after),
+                "presig": sig, "nontrivial": True, "abort": {"fired": fired > 0, "sweep": True}}
 
     def op_PREDICT_PAIR(self, a, store):
         """C05: two twins of the model's *current* state, reporting sets differing only in `observed`."""
@@ -1081,6 +1200,7 @@ class Worker:
         slot.base_recipe = entry["base_recipe"]
         slot.gen = entry["gen"] + 1
         slot.origin_doc = a["doc"]
+        slot.origin_text = txt
         slot.lineage = entry.get("lineage")
         gate = self._gate_attrs(obj)
         out["gate"] = gate
